@@ -155,7 +155,16 @@ CLASSES = ["blocks", "alternating", "iid", "same-name-sizes", "same-sig-atoms", 
 
 def generate(ctx):
     rng = ctx.rng
-    n = ctx.n(650, 7000)
+    # one file with more than 100000 atoms (residue and atom numbers wrap in their five columns; "the file's atom
+    # records" are the numbers WRITTEN there, not reconstructed ones — seed C12-8).  Oracle only.
+    for natoms in ([100020] if ctx.quick() else [99990, 100020, 200040]):
+        nres = natoms // 10
+        names = ["OW", "HW1", "HW2", "C1", "C2", "C3", "N1", "O1", "P1", "S1"]
+        residues = [[(k + 1) % 100000, "BIG" if k % 2 else "BGG", list(names)] for k in range(nres)]
+        yield {"kind": "sysgro", "cls": "beyond-100000-atoms", "title": "big", "vel": False, "coordseed": natoms,
+               "residues": residues, "ops": [["g", nres - 1], ["g", -2], ["g", 10000], ["s", nres - 3, None, None],
+                                             ["g", 0], ["s", 9998, 10002, None]]}
+    n = ctx.n(560, 7000)
     for i in range(n):
         cls = CLASSES[i % len(CLASSES)] if i < 3 * len(CLASSES) else rng.choice(CLASSES)
         q = rng.random()
@@ -402,6 +411,9 @@ def evaluate(ctx, case):
         pass
 
     # ------------------------------------------------------------------ model
+    if len(atoms) > 60000:
+        ctx.count("model:not-asked-for-a-file-beyond-60000-atoms (oracle only)")
+        return
     recs = [(a[0], a[1], a[2]) for a in atoms]
     # every third case of moderate size goes through the BYTE path: the model opens the very bytes of the file
     # (`sysGroOfBytes` = C13's reader composed with the view) instead of being handed the parsed records
